@@ -98,6 +98,13 @@ Theorem C16_2d_polygon_in_box : forall g box p others x, Forall (sat g) box -> I
 Proof. exact cell_poly_in_box. Qed.
 Print Assumptions C16_2d_polygon_in_box.
 
+(* the start box loses nothing: with the far corner sites of the code (10 * max|k|) the cell of every real site lies in
+   the box [-20 m, 20 m]^2 from which the clipping starts *)
+Theorem C16_2d_cell_in_start_box : forall m p x, 0 < m -> - m <= fst p <= m -> - m <= snd p <= m ->
+  cell2 (corners m) p x -> (- (20 * m) <= fst x <= 20 * m) /\ (- (20 * m) <= snd x <= 20 * m).
+Proof. exact cell_in_bigbox. Qed.
+Print Assumptions C16_2d_cell_in_start_box.
+
 (* the cell itself (as a set) is equivariant: order of the sites, translations, rotations / reflections, scalings *)
 Theorem C16_cell2_permutation : forall P P' p x, Permutation P P' -> (cell2 P p x <-> cell2 P' p x).
 Proof. exact cell2_perm. Qed.
